@@ -153,9 +153,9 @@ func pvsOf(raw client.Client, p *corev1.Pod) []string {
 // Karpenter cannot drain (its attachment will legitimately never go away while the node lives). Attachments
 // without a PersistentVolume name (inline volumes) have nothing to migrate and never block.
 type vaView struct {
-	Blocking    []string
-	NonDrainPV  []string // attachments exempt because a non-drainable pod uses the volume
-	Inline      []string
+	Blocking   []string
+	NonDrainPV []string // attachments exempt because a non-drainable pod uses the volume
+	Inline     []string
 }
 
 func volumeAttachments(raw client.Client, node string, pods []*corev1.Pod, now time.Time) vaView {
